@@ -85,22 +85,25 @@ def run(a, res):
         date = int(now()) + e["skew"]
         left = r.choice([5, 8, 12, 20, 30, 45, 60, 61, 90, 120, 300, 600, 900, 1800, 3600, r.randrange(5, 3600)])
         L = left + max(0, -e["skew"])          # lifetime: what is left now, plus the age the Date already claims
+        # RFC 9111 4.2.3: a Date in the future gives apparent_age 0, so the age counts from when the response was received;
+        # the response is stale at min(Date, receipt time) + lifetime, NOT at Date + lifetime
+        date_E = min(date, int(now()))
         kind = e["kind"]
         cc = []
         hs = []
         E = None
         if kind == "max-age":
-            cc.append("max-age=%d" % L); E = date + L
+            cc.append("max-age=%d" % L); E = date_E + L
         elif kind == "s-maxage":
-            cc.append("s-maxage=%d" % L); E = date + L
+            cc.append("s-maxage=%d" % L); E = date_E + L
         elif kind == "expires":
-            hs.append(("Expires", http_date(date + L))); E = date + L
+            hs.append(("Expires", http_date(date + L))); E = date_E + L
         elif kind == "s-maxage+max-age":
-            cc += ["max-age=%d" % (L + 5000), "s-maxage=%d" % L]; E = date + L
+            cc += ["max-age=%d" % (L + 5000), "s-maxage=%d" % L]; E = date_E + L
         elif kind == "max-age+expires":
-            cc.append("max-age=%d" % L); hs.append(("Expires", http_date(date + L + 7200))); E = date + L
+            cc.append("max-age=%d" % L); hs.append(("Expires", http_date(date + L + 7200))); E = date_E + L
         elif kind == "s-maxage+expires":
-            cc.append("s-maxage=%d" % L); hs.append(("Expires", http_date(date + L + 7200))); E = date + L
+            cc.append("s-maxage=%d" % L); hs.append(("Expires", http_date(date + L + 7200))); E = date_E + L
         elif kind == "expires-invalid":
             # invalid Expires = "already expired" (RFC 9111 5.3) without a defined instant: the least demanding reading
             # is "expired when received", which also fixes what max-stale=n is measured from
